@@ -7,6 +7,7 @@
 import Proofs.C14Cache
 import Proofs.C14Sanitize
 import Proofs.C14Loaders
+import Proofs.C14Unified
 
 namespace Taurex.C14
 open Taurex.Loaders Taurex.Sanitize Taurex.CacheSM
@@ -220,6 +221,107 @@ example : exCTab.WF ∧ exCTab.t ≠ [] ∧ exCTab.t.Pairwise (· < ·) ∧ exCT
   have h3 : exCTab.t.Pairwise (· < ·) := by decide +kernel
   have h4 : exCTab.wn.Pairwise (· ≤ ·) := by decide +kernel
   exact ⟨h1, h2, h3, h4, (hitran_single_range "H2-He" exCTab h1 h2 h3 h4).2, by decide +kernel⟩
+
+/-! ## HITRAN, several wavenumber ranges: the loaded table is the documented unified table -/
+
+/-- **hitran_unified**: for ANY HITRAN `.cia` file — any number of wavenumber ranges (blocks with the same
+    `(start, end)` header form a range), each range tabulated at its own subset of temperatures, blocks in any order,
+    negative entries — in which no `(range, temperature)` pair occurs twice, the table `load_hitran_file` builds
+    (`decHitran`: reading loop, `fill_gaps` / `fill_temperature` on the live `Tsigma` lists, `compute_final_grid`)
+    IS the documented unified table `hitranUnified` (`TaurexModel/Loaders.lean`):
+    * temperature axis = the sorted union of the block temperatures (`hitran_master`);
+    * the ranges are the blocks grouped by header, rows in file order (`hitran_ranges`);
+    * per range and master temperature `T` the row `rangeRow`, computed from the range's OWN tabulated rows only:
+      the tabulated (×1e-10, negatives → 0) row if the range has `T`, zeros if `T` lies outside the range's own
+      temperature span, else the linear interpolation in `T` between the range's two tabulated rows whose
+      temperatures bracket `T` (`hitran_range_row`);
+    * wavenumber axis = the ranges' wavenumbers concatenated in order of first appearance and sorted, every row
+      permuted alike.
+    The content of the proof: the loop of `fill_temperature` brackets a missing temperature in the live list, which
+    already holds rows inserted for earlier master temperatures; such a row lies on the straight line between the
+    two own rows, so interpolating from it gives the same value (`interpLin_chain`) — the loaded table does not
+    depend on the order in which gaps are filled. -/
+theorem hitran_unified (blocks : List (HBlock K)) (hu : UniqueBlocks blocks) :
+    decHitran blocks = hitranUnified blocks :=
+  decHitran_unified blocks hu
+
+/-- the temperature axis of `hitranUnified` / `decHitran`: strictly increasing, exactly the temperatures that head
+    some block ("master list = sorted union") -/
+theorem hitran_master (blocks : List (HBlock K)) :
+    (decHitran blocks).t = (hitranUnified blocks).t ∧ (hitranUnified blocks).t.Pairwise (· < ·) ∧
+    ∀ T, T ∈ (hitranUnified blocks).t ↔ ∃ b ∈ blocks, b.temp = T :=
+  ⟨rfl, (master_sorted blocks).1, (master_sorted blocks).2⟩
+
+/-- the ranges of `hitranUnified` (`(hLoad blocks).2`): one per distinct `(start, end)` header, every block belongs
+    to one; a range's (T, sigma) list = the (temperature, ×1e-10 clipped cross-sections) of its blocks in file
+    order, its wavenumbers = those listed in its last block -/
+theorem hitran_ranges (blocks : List (HBlock K)) :
+    ((hLoad blocks).2.map (·.key)).Nodup ∧ (∀ b ∈ blocks, bKey b ∈ (hLoad blocks).2.map (·.key)) ∧
+    ∀ g ∈ (hLoad blocks).2, g.ts = (rangeBlocks blocks g.key).map bEntry ∧
+      g.wn = ((rangeBlocks blocks g.key).getLast?.map bWn).getD [] ∧ rangeBlocks blocks g.key ≠ [] :=
+  ⟨(hLoad_inv blocks).keysNodup, (hLoad_inv blocks).keysAll, (hLoad_inv blocks).grid⟩
+
+/-- what `rangeRow` is, case by case, for a range whose own rows `own` are sorted by strictly increasing
+    temperature: (1) at its `j`-th temperature the tabulated row; (2) outside its span zeros; (3) strictly inside,
+    at a temperature it does not have, the interpolation between the two neighbouring own rows `c-1`, `c`
+    (`c` = number of own temperatures `≤ T`), whose temperatures bracket `T` -/
+theorem hitran_range_row (wn : List K) (own : List (K × List K)) (hs : StrictTs own) :
+    (∀ j (hj : j < own.length), rangeRow wn own own[j].1 = own[j].2) ∧
+    (∀ T, T ∉ own.map (·.1) → (T < lmin (own.map (·.1)) ∨ lmax (own.map (·.1)) < T) →
+      rangeRow wn own T = wn.map (fun _ => 0)) ∧
+    (∀ T, T ∉ own.map (·.1) → lmin (own.map (·.1)) ≤ T → T ≤ lmax (own.map (·.1)) → own ≠ [] →
+      ∃ (c : Nat) (_ : 1 ≤ c) (hc : c < own.length), own[c - 1].1 < T ∧ T < own[c].1 ∧
+        rangeRow wn own T =
+          List.zipWith (fun u v => Interp.interpLin u v T own[c - 1].1 own[c].1) own[c - 1].2 own[c].2) := by
+  refine ⟨fun j hj => rangeRow_own wn own hs j hj, ?_, ?_⟩
+  · intro T hT hout
+    have hmem : memv T (own.map (·.1)) = false := by
+      cases hm : memv T (own.map (·.1))
+      · rfl
+      · exact absurd ((memv_iff _ _).mp hm) hT
+    have ho : (decide (T < lmin (own.map (·.1))) || decide (lmax (own.map (·.1)) < T)) = true := by
+      simpa using hout
+    unfold rangeRow
+    simp only [hmem, ho, Bool.false_eq_true, if_false, if_true]
+  · intro T hT h1 h2 hne
+    have hne' : own.map (·.1) ≠ [] := by simpa using hne
+    obtain ⟨c1, c2, c3, c4, _, _⟩ := bracket_of_sorted (own.map (·.1)) (strictTs_keys own hs) T hT _ _
+      (lmin_mem _ hne') (lmax_mem _ hne') h1 h2 _ rfl
+    rw [List.length_map] at c2
+    simp only [List.getElem_map] at c3 c4
+    exact ⟨_, c1, c2, c3, c4, rangeRow_between wn own T hT h1 h2 _ rfl c1 c2⟩
+
+/-- the file used for the non-vacuity example of `hitran_unified`: three ranges, blocks interleaved — range 10–30 cm⁻¹
+    at T = 100, 200, 400 (one negative entry), range 50–60 cm⁻¹ only at T = 400 and 200 (listed hot-to-cold), range
+    70 cm⁻¹ only at T = 300 -/
+def exHBlocks : List (HBlock ℚ) :=
+  [⟨"H2-He", 10, 30, 100, 1, [(10, 10000000000), (30, -5)]⟩,
+   ⟨"H2-He", 50, 60, 400, 1, [(50, 40000000000), (60, 80000000000)]⟩,
+   ⟨"H2-He", 10, 30, 200, 1, [(10, 30000000000), (30, 0)]⟩,
+   ⟨"H2-He", 70, 70, 300, 1, [(70, 50000000000)]⟩,
+   ⟨"H2-He", 10, 30, 400, 1, [(10, 0), (30, 20000000000)]⟩,
+   ⟨"H2-He", 50, 60, 200, 1, [(50, 20000000000), (60, 0)]⟩]
+
+/-- non-vacuity of `hitran_unified`: the headers of `exHBlocks` are pairwise distinct, so the reader gives the documented
+    table; its ingredients, evaluated: the temperature list and the three ranges the reading loop builds (the second
+    range's rows in file order, hot first), and the documented rows — T = 300 interpolated in the first two ranges
+    between their own 200 and 400 rows, T = 100 below the span of the second range (zeros), its own row at T = 400,
+    the third range zero away from its single temperature -/
+example :
+    UniqueBlocks exHBlocks ∧ decHitran exHBlocks = hitranUnified exHBlocks ∧
+    (hLoad exHBlocks).1 = [100, 400, 200, 300] ∧
+    (hLoad exHBlocks).2.map (fun g => (g.key, g.wn, g.ts)) =
+      [((10, 30), [10, 30], [(100, [1, 0]), (200, [3, 0]), (400, [0, 2])]),
+       ((50, 60), [50, 60], [(400, [4, 8]), (200, [2, 0])]),
+       ((70, 70), [70], [(300, [5])])] ∧
+    rangeRow [10, 30] [(100, [1, 0]), (200, [3, 0]), (400, [0, 2])] (300 : ℚ) = [3/2, 1] ∧
+    rangeRow [50, 60] [(200, [2, 0]), (400, [4, 8])] (300 : ℚ) = [3, 4] ∧
+    rangeRow [50, 60] [(200, [2, 0]), (400, [4, 8])] (100 : ℚ) = [0, 0] ∧
+    rangeRow [50, 60] [(200, [2, 0]), (400, [4, 8])] (400 : ℚ) = [4, 8] ∧
+    rangeRow [70] [(300, [5])] (400 : ℚ) = [0] := by
+  have hu : UniqueBlocks exHBlocks := by unfold UniqueBlocks; decide +kernel
+  exact ⟨hu, hitran_unified exHBlocks hu, by decide +kernel, by decide +kernel, by decide +kernel,
+    by decide +kernel, by decide +kernel, by decide +kernel, by decide +kernel⟩
 
 /-! ## molecule names -/
 
